@@ -3,3 +3,6 @@ import GMModel.Vec3
 import GMModel.Util
 import GMModel.Frame
 import GMModel.ExchangeMap
+import GMModel.MoveAtom
+import GMModel.Chi2
+import GMModel.Pbc
